@@ -4,6 +4,8 @@ use serde_json::{json, Map, Value};
 
 pub fn sym(n: &str) -> Value { json!({"type":"SYMBOL","name":n}) }
 pub fn s(v: &str) -> Value { json!({"type":"STRING","value":v}) }
+/// a pattern with regex flags (tree-sitter honours `i`)
+pub fn pat_flags(v: &str, flags: &str) -> Value { json!({"type": "PATTERN", "value": v, "flags": flags}) }
 pub fn pat(v: &str) -> Value { json!({"type":"PATTERN","value":v}) }
 pub fn blank() -> Value { json!({"type":"BLANK"}) }
 pub fn seq(m: Vec<Value>) -> Value { json!({"type":"SEQ","members":m}) }
@@ -19,6 +21,10 @@ pub fn prec(n: i32, c: Value) -> Value { json!({"type":"PREC","value":n,"content
 pub fn prec_left(n: i32, c: Value) -> Value { json!({"type":"PREC_LEFT","value":n,"content":c}) }
 pub fn prec_right(n: i32, c: Value) -> Value { json!({"type":"PREC_RIGHT","value":n,"content":c}) }
 pub fn prec_dyn(n: i32, c: Value) -> Value { json!({"type":"PREC_DYNAMIC","value":n,"content":c}) }
+/// `content` lexed in the reserved-word context `ctx`
+pub fn reserved(ctx: &str, content: Value) -> Value { json!({"type": "RESERVED", "context_name": ctx, "content": content}) }
+/// precedence by name (see G::precedence_order)
+pub fn prec_named_left(name: &str, c: Value) -> Value { json!({"type":"PREC_LEFT","value":name,"content":c}) }
 pub fn sep1(sep: &str, c: Value) -> Value { seq(vec![c.clone(), rep(seq(vec![s(sep), c]))]) }
 pub fn sep(sepv: &str, c: Value) -> Value { opt(sep1(sepv, c)) }
 
@@ -33,6 +39,7 @@ pub struct G {
     pub supertypes: Vec<String>,
     pub word: Option<String>,
     pub precedences: Vec<Vec<Value>>,
+    pub reserved: Vec<(String, Vec<String>)>,
 }
 
 impl G {
@@ -44,6 +51,9 @@ impl G {
     pub fn inline(mut self, n: &str) -> Self { self.inline.push(n.to_string()); self }
     pub fn supertype(mut self, n: &str) -> Self { self.supertypes.push(n.to_string()); self }
     pub fn word(mut self, n: &str) -> Self { self.word = Some(n.to_string()); self }
+    /// a reserved-word set; the first one declared is the global set
+    pub fn reserved_set(mut self, name: &str, words: &[&str]) -> Self { self.reserved.push((name.to_string(), words.iter().map(|w| w.to_string()).collect())); self }
+    pub fn precedence_order(mut self, names: &[&str]) -> Self { self.precedences.push(names.iter().map(|n| json!({"type": "STRING", "value": n})).collect()); self }
     pub fn to_value(&self) -> Value {
         let mut rules = Map::new();
         for (n, v) in &self.rules { rules.insert(n.clone(), v.clone()); }
@@ -57,6 +67,11 @@ impl G {
         g.insert("externals".into(), json!(self.externals));
         g.insert("inline".into(), json!(self.inline));
         g.insert("supertypes".into(), json!(self.supertypes));
+        if !self.reserved.is_empty() {
+            let mut r = Map::new();
+            for (n, ws) in &self.reserved { r.insert(n.clone(), json!(ws.iter().map(|w| json!({"type": "STRING", "value": w})).collect::<Vec<_>>())); }
+            g.insert("reserved".into(), Value::Object(r));
+        }
         Value::Object(g)
     }
     pub fn to_json(&self) -> String { serde_json::to_string(&self.to_value()).unwrap() }
